@@ -184,6 +184,40 @@ def reason (p : Pkg) : String :=
 /-- class label of an input -/
 def classify (p : Pkg) : String := if dom p then "in-domain" else reason p
 
+/-! ### which declarations are init functions
+
+  "Variables may also be initialized using functions named `init` declared in the package block,
+   with no arguments and no result parameters: `func init() { … }`. Multiple such functions may be
+   defined per package, even within a single source file. In the package block, the `init`
+   identifier can be used only to declare `init` functions, yet the identifier itself is not
+   declared. Thus `init` functions cannot be referred to from anywhere in a program."
+  "… all `init` functions in the order they appear in the source, possibly in multiple files, as
+   presented to the compiler."
+  A method is not declared in the package block: a method named `init` is an ordinary method; so are
+  functions named `Init`, `init_`, `initX`, fields and local variables named `init`. -/
+
+/-- the declaration is an init function: a function declaration (no receiver) named `init` -/
+def isInitFunc (f : FuncDecl) : Bool := f.name == "init" && f.recv == .none
+
+/-- the init functions of a package, in the order in which they appear in the source (file by
+    file), each declaration once -/
+def initFuncsGo (files : List (List Decl)) : List FuncDecl := (declFuncs files.flatten).filter isInitFunc
+
+/-- function names declared in the package block: every function that is not an init function -/
+def declaredFuncsGo (ds : List Decl) : List String :=
+  ((declFuncs ds).filter (fun f => f.recv == .none && f.name != "init")).map (·.name)
+
+/-- the package the specification's rules of the section above apply to -/
+def toPkgGo (s : SrcPkg) : Pkg :=
+  ⟨declVars s.decls, (declFuncs s.decls).map FuncDecl.toFunc, (initFuncsGo s.files).map (·.label), s.main⟩
+
+/-- variables, init functions in source order, `main` and what it calls -/
+def runSrcGo (s : SrcPkg) : Trace := (runGo (toPkgGo s)).andThen s.after
+
+/-- class label of a package given as source: it depends on the declarations only, not on any fact
+    read from the interpreter -/
+def classifySrc (s : SrcPkg) : String := classify (toPkgGo s)
+
 /-! ### several packages ("Program initialization")
 
   "Given the list of all packages, sorted by import path, in each step the first uninitialized
